@@ -25,9 +25,15 @@ BASE_MODELS = [
 ]
 
 
-def H(tier, desc, symbolic, bound, unwind=4, rules=(), timeout=None, mem_gb=12, expect=None):
+def H(tier, desc, symbolic, bound, unwind=4, rules=(), timeout=None, mem_gb=9, expect=None, extra=()):
+    """extra: additional CBMC options, e.g. --arrays-uf-always (arrays as uninterpreted functions
+    instead of flattening: 238 s -> 1.7 s for symbolic-index writes into a 1024-word bitfield page)."""
     return dict(tier=tier, desc=desc, symbolic=symbolic, bound=bound, unwind=unwind,
-                rules=list(rules), timeout=timeout, mem_gb=mem_gb, expect=expect)
+                rules=list(rules), timeout=timeout, mem_gb=mem_gb, expect=expect, extra=list(extra))
+
+
+UF = ["--arrays-uf-always"]
+FS9000 = ["--max-field-sensitivity-array-size", "9000"]  # later occurrence overrides the default 300
 
 
 PROPS = {}
@@ -99,3 +105,43 @@ C01 = dict(
     },
 )
 PROPS["C01"] = C01
+
+# --------------------------------------------------------------------------------------------- C08
+_BF_RULES = [(r"increase_cache", 10), (r"FixedBitfield9set_range", 8), (r"DynamicBitfield9set_range", 5), (r"try_fold|4find|8index_of|13last_index_of", 110),
+             (r"FixedBitfield9from_data", 1030), (r"FixedBitfield8to_bytes", 1030), (r"update_contiguous_length", 20), (r"SigningKey13verifying_key", 34)]
+_win = "start within +-64 bits of a boundary chosen symbolically from {low end, mid-page word edge, last word, page end}; 1 <= len <= 96"
+C08 = dict(
+    title="has() and contiguous_length are exact for large, sparse and reopened cores",
+    variant="model",
+    patterns=["c08_"],
+    functions=[
+        "hypercore::bitfield::fixed::FixedBitfield::{new,get,set,set_range,index_of,last_index_of,from_data,to_bytes}",
+        "hypercore::bitfield::dynamic::DynamicBitfield::{open,flush,get,set_range,update,index_of,last_index_of}",
+        "hypercore::core::update_contiguous_length",
+    ],
+    oracle="bit-level reference computed from the update parameters; first-missing-index of a 64-bit window",
+    outside=[
+        "ranges longer than 96 bits / scans longer than ~100 bits (loop count grows with input)",
+        "cores beyond 4 pages; more than two updates per query (the contiguous-length claim is an inductive step from an arbitrary window, so it covers histories of any length inside a 64-block window)",
+        "the contiguous-length update written inline in Hypercore::clear (needs the whole Hypercore; see C02 notes)",
+    ],
+    harnesses={
+        "c08_fixed_set_get": H("quick", "FixedBitfield set/get incl. changed flag", "i, k, j: any bit index of the page", "none", unwind=6, extra=UF),
+        "c08_fixed_set_range": H("quick", "two windowed set_range calls then get(j)", _win + " (twice); value: bool; j: any index of the page", "windows", rules=_BF_RULES, unwind=6, extra=UF),
+        "c08_fixed_index_of": H("quick", "index_of(true/false) near a range, None at the page end", "range: window, 1<=len<=40; positions up to 30 bits before / anywhere inside", "scan distance <= 70 bits", rules=_BF_RULES, timeout=900, unwind=6, extra=UF),
+        "c08_fixed_last_index_of": H("quick", "last_index_of(true/false) near a range, None at index 0", "range: window, 1<=len<=40; positions up to 30 bits after / anywhere inside", "scan distance <= 70 bits", rules=_BF_RULES, timeout=900, unwind=6, extra=UF),
+        "c08_dyn_set_range_pages": H("quick", "DynamicBitfield set_range straddling 32767/32768 or 65535/65536 then get(j)", "range within +-64 of a page edge, len<=96; j < 4 pages; far index >= 4 pages", "window", rules=_BF_RULES, timeout=900, unwind=6, extra=UF),
+        "c08_dyn_drop_across_pages": H("quick", "drop of a range straddling a page edge out of a held range", "drop start within [-40,+8] of the edge, 1<=len<=48; j < 4 pages", "window", rules=_BF_RULES, timeout=900, unwind=6, extra=UF),
+        "c08_dyn_index_of_sparse": H("quick", "index_of/last_index_of(true) across a missing page", "bit a in last 20 of page 0, bit c in first 20 of page 2, query positions symbolic", "20-bit windows", rules=_BF_RULES, timeout=900, unwind=6, extra=UF),
+        "c08_dyn_flush_layout": H("quick", "flush: one StoreInfo per dirty page at 4096*page, LE words", "range within +-64 of a page edge; info n, bit k symbolic", "window", rules=_BF_RULES, timeout=900, unwind=6, extra=UF),
+        "c08_dyn_open_one_page_first": H("quick", "open: has(j) == bit j of the file; 4096-byte file, byte 0 symbolic", "x: the byte value; j: any index < 4 pages", "file zero elsewhere; byte offset concrete per instance", rules=_BF_RULES, timeout=900, unwind=5, extra=FS9000),
+        "c08_dyn_open_one_page_last": H("thorough", "open: has(j) == bit j of the file; 4096-byte file, byte 4095 symbolic", "x: the byte value; j: any index < 4 pages", "file zero elsewhere; byte offset concrete per instance", rules=_BF_RULES, timeout=900, unwind=5, extra=FS9000),
+        "c08_dyn_open_two_pages_p0": H("thorough", "open: has(j) == bit j of the file; 8192-byte file (core > 32768 blocks), byte 1027 symbolic", "x: the byte value; j: any index < 4 pages", "file zero elsewhere; byte offset concrete per instance", rules=_BF_RULES, timeout=900, unwind=5, extra=FS9000),
+        "c08_dyn_open_two_pages_p1_first": H("quick", "open: has(j) == bit j of the file; 8192-byte file, byte 4096 symbolic", "x: the byte value; j: any index < 4 pages", "file zero elsewhere; byte offset concrete per instance", rules=_BF_RULES, timeout=900, unwind=5, extra=FS9000),
+        "c08_dyn_open_two_pages_p1_last": H("quick", "open: has(j) == bit j of the file; 8192-byte file, byte 8191 symbolic", "x: the byte value; j: any index < 4 pages", "file zero elsewhere; byte offset concrete per instance", rules=_BF_RULES, timeout=900, unwind=5, extra=FS9000),
+        "c08_dyn_open_partial_page": H("quick", "open: has(j) == bit j of the file; 4100-byte file (short last page), byte 4099 symbolic", "x: the byte value; j: any index < 4 pages", "file zero elsewhere; byte offset concrete per instance", rules=_BF_RULES, timeout=900, unwind=5, extra=FS9000),
+        "c08_bitfield_open_size_step": H("quick", "open(size) asks for whole words only", "store length < 2^40", "none", unwind=6, extra=UF),
+        "c08_contiguous_length_step": H("quick", "inductive step of contiguous-length maintenance", "window w: all 2^15 patterns of blocks 0..14; update drop/start/length anywhere inside", "16-block window", rules=_BF_RULES, timeout=600, unwind=6, extra=UF),
+    },
+)
+PROPS["C08"] = C08
